@@ -89,7 +89,21 @@ impl Exec {
 
     /// Execute one op line on the implementation and on the shadow vectors; emit the line pair.
     pub fn apply(&mut self, line: &str, out: &mut Out) {
-        let w: Vec<&str> = line.split_whitespace().collect();
+        // `q <op>`: quiet op — applied without flattening any pool member (no dump, no comparison),
+        // so that messages derived from one another can diverge before anything is materialised;
+        // `dump`: a loud no-op
+        let quiet = line.starts_with("q ");
+        let body = if quiet { &line[2..] } else { line };
+        if body == "dump" {
+            let d = match catch(|| dump(&self.pool)) {
+                Ok(d) => d,
+                Err(p) => format!("dump-panic:{}", source_line_text(&p.file, p.line)),
+            };
+            out.line(line, &format!("ok {}", d));
+            self.compare(line, "dump", out);
+            return;
+        }
+        let w: Vec<&str> = body.split_whitespace().collect();
         let n = self.pool.len();
         let idx = |s: &str| -> Option<usize> { s.parse::<usize>().ok().filter(|i| *i < n) };
         // (impl result, spec result)
@@ -204,6 +218,23 @@ impl Exec {
             _ => return out.line(line, "bad-op"),
         }
         out.count(&format!("op.{}", w[0]));
+        if quiet {
+            out.count("quiet_ops");
+            let res = match &imp_err {
+                None => "ok".to_string(),
+                Some(e) => format!("err {}", e),
+            };
+            out.line(line, &res);
+            match (&imp_err, spec_err) {
+                (None, None) => {}
+                (Some(e), Some(s)) if e == s => {}
+                (a, b) => {
+                    out.fail(&format!("op `{}`: Message outcome {:?} but byte-vector outcome {:?}", line, a, b), &format!("outcome-mismatch {}", w[0]));
+                    self.resync();
+                }
+            }
+            return;
+        }
         // dump (a corrupted chunk could panic inside to_vec: that is an observable outcome too)
         let d = match catch(|| dump(&self.pool)) {
             Ok(d) => d,
@@ -229,6 +260,11 @@ impl Exec {
                 return;
             }
         }
+        self.compare(line, w[0], out);
+    }
+
+    /// every pool member against its shadow vector: bytes, len, is_empty, == matrix
+    fn compare(&mut self, line: &str, opname: &str, out: &mut Out) {
         if self.pool.len() != self.shadow.len() {
             out.fail("pool size differs from shadow", "pool-size");
             self.resync();
@@ -241,7 +277,7 @@ impl Exec {
                     "after `{}` pool[{}] = len {} bytes {} but the byte-vector semantics give len {} bytes {}",
                     line, k, m.len(), hex(&v), self.shadow[k].len(), hex(&self.shadow[k])
                 );
-                out.fail(&what, &format!("bytes-differ {}", w[0]));
+                out.fail(&what, &format!("bytes-differ {}", opname));
                 self.resync();
                 return;
             }
@@ -342,10 +378,23 @@ pub fn run(args: &Args) {
         let mut r = rng.fork();
         let mut ex = Exec::new();
         out.begin_case(c);
-        for _ in 0..ops_per_case {
+        // dump policy: 0 = after every op; 1 = sparse (most ops quiet); 2 = only at the end
+        let policy = r.below(3);
+        for k in 0..ops_per_case {
             let op = ex.gen(&mut r);
-            ex.apply(&op, &mut out);
+            let quiet = match policy {
+                0 => false,
+                1 => !r.chance(1, 6),
+                _ => true,
+            } && k + 1 < ops_per_case;
+            if quiet {
+                ex.apply(&format!("q {}", op), &mut out);
+            } else {
+                ex.apply(&op, &mut out);
+            }
         }
+        ex.apply("dump", &mut out);
+        out.count(&format!("dump_policy.{}", policy));
         let multi = ex.bounds.iter().filter(|b| !b.is_empty()).count();
         if multi >= 2 {
             out.mark_nontrivial();
